@@ -394,6 +394,26 @@ fn docs(rng: &mut Rng, on: bool) -> Vec<String> {
     (0..rng.range(1, 2)).map(|_| rng.pick(&DOCS).to_string()).collect()
 }
 
+/// parameters of `d` that type a `#[codec(compact)]` field (they must be instantiated with
+/// unsigned integers: `T: HasCompact`)
+pub fn compact_params(d: &Def) -> Vec<usize> {
+    let mut v = vec![];
+    let mut scan = |fs: &Vec<FieldDef>| {
+        for f in fs {
+            if f.compact_attr {
+                if let Src::Param(i) = f.ty {
+                    v.push(i);
+                }
+            }
+        }
+    };
+    match &d.body {
+        Body::Struct(fs) => scan(fs),
+        Body::Enum(vs) => vs.iter().for_each(|x| scan(&x.2)),
+    }
+    v
+}
+
 pub fn rand_type(rng: &mut Rng, cfg: &GenCfg, defs: &[Def], nparams: usize, depth: usize, self_idx: Option<usize>) -> Src {
     let leaf = depth >= 3 || rng.chance(2, 5);
     if leaf {
@@ -437,7 +457,14 @@ pub fn rand_type(rng: &mut Rng, cfg: &GenCfg, defs: &[Def], nparams: usize, dept
             }
             let d = rng.below(defs.len());
             let n = defs[d].params.len();
-            let args = (0..n).map(|_| rand_type(rng, cfg, defs, nparams, depth + 2, self_idx)).collect();
+            let cps = compact_params(&defs[d]);
+            let args = (0..n)
+                .map(|i| if cps.contains(&i) {
+                    Src::Prim(*rng.pick(&["u8", "u16", "u32", "u64", "u128"]))
+                } else {
+                    rand_type(rng, cfg, defs, nparams, depth + 2, self_idx)
+                })
+                .collect();
             let app = Src::App(d, args);
             if rng.chance(1, 6) { Src::BoxT(Box::new(app)) } else { app }
         }
@@ -454,7 +481,12 @@ fn rand_fields(rng: &mut Rng, cfg: &GenCfg, defs: &[Def], nparams: usize, self_i
             let mut ty = rand_type(rng, cfg, defs, nparams, 0, self_idx);
             let mut compact_attr = false;
             if cfg.allow_compact && rng.chance(1, 8) {
-                ty = Src::Prim(*rng.pick(&["u8", "u16", "u32", "u64", "u128"]));
+                // `#[codec(compact)]` on a primitive or on a type parameter (T: HasCompact)
+                ty = if nparams > 0 && rng.chance(1, 3) {
+                    Src::Param(rng.below(nparams))
+                } else {
+                    Src::Prim(*rng.pick(&["u8", "u16", "u32", "u64", "u128"]))
+                };
                 compact_attr = true;
             }
             FieldDef {
@@ -532,7 +564,12 @@ pub fn rand_program(rng: &mut Rng, cfg: &GenCfg) -> Program {
     for _ in 0..nr {
         let d = rng.below(defs.len());
         let mut args: Vec<Src> = vec![];
-        for _ in 0..defs[d].params.len() {
+        let cps = compact_params(&defs[d]);
+        for i in 0..defs[d].params.len() {
+            if cps.contains(&i) {
+                args.push(Src::Prim(*rng.pick(&["u8", "u16", "u32", "u64", "u128"])));
+                continue;
+            }
             // pairwise distinct arguments
             let mut a = rand_arg(rng, 0);
             let mut tries = 0;
@@ -555,9 +592,11 @@ pub fn rand_program(rng: &mut Rng, cfg: &GenCfg) -> Program {
             let mut pool: Vec<Src> = ARG_PRIMS.iter().map(|p| Src::Prim(p)).collect();
             rng.shuffle(&mut pool);
             let n = defs[d].params.len();
-            for k in 0..3 {
-                let args: Vec<Src> = (0..n).map(|i| pool[(k + i) % 3].clone()).collect();
-                roots.push(Src::App(d, args));
+            if compact_params(&defs[d]).is_empty() {
+                for k in 0..3 {
+                    let args: Vec<Src> = (0..n).map(|i| pool[(k + i) % 3].clone()).collect();
+                    roots.push(Src::App(d, args));
+                }
             }
             rng.shuffle(&mut roots);
         }
